@@ -72,8 +72,9 @@ class Graph:
         return paths
 
 
-def dump_edges(module, cfg, consts=None, env=None, heap="4g", timeout=1800):
-    """run TLC (single worker: PrintT lines must not interleave) and return (Graph, TlcResult)"""
+def dump_edges(module, cfg, consts=None, env=None, heap="4g", timeout=1800, norm=None):
+    """run TLC (single worker: PrintT lines must not interleave) and return (Graph, TlcResult);
+    norm: optional function bringing a printed projection to the harness's JSON shape (sets sorted, empty functions as {})"""
     res = tlc.run(module, cfg, consts=consts, env=env, workers=1, heap=heap, timeout=timeout)
     edges = [tuple(e) for e in res.tagged("EDGE")]
     if not edges:
@@ -81,6 +82,8 @@ def dump_edges(module, cfg, consts=None, env=None, heap="4g", timeout=1800):
     for e in edges:
         if len(e) != 3:
             raise MachineryError("%s: malformed edge line %r" % (module, e))
+    if norm:
+        edges = [(norm(s), a, norm(d)) for s, a, d in edges]
     return Graph(edges), res
 
 
